@@ -4,11 +4,13 @@ def plan(tier):
         "mc": [{"module": "ExactMatchMC", "cfg": "ExactMatchMC.cfg" if q else "ExactMatchMC_thorough.cfg",
                 "timeout": 1500}],
         "families": [{"fam": "exact", "trace": "ExactMatchTrace"}],
-        "required_obligations": ["exhaustive_small", "self_overlap_all_borders", "text_of_a_million_symbols", "pattern_longer_than_65536", "len63", "len64", "len65_refused"],
+        "required_obligations": ["exhaustive_small", "self_overlap_all_borders", "text_of_a_million_symbols", "pattern_longer_than_65536", "len63", "len64", "len65_refused", "alignment_sweep_len64", "alignment_sweep_pattern_longer_than_256"],
         "rule": "one run = one matcher object (algo,pattern) applied to several texts; exhaustive over {a,b} "
                 "(|p|<=4,|t|<=7 quick; 5/9 thorough) for all five matchers, every binary pattern of length 5..9(11) "
                 "against all of its self-overlap texts p[..s]+p, plus unary/periodic/random patterns "
-                "of the word-size boundary lengths over 1-, 2-, 3- and 256-symbol alphabets with planted occurrences",
+                "of the word-size boundary lengths over 1-, 2-, 3- and 256-symbol alphabets with planted occurrences; "
+                "alignment sweep: patterns with one rare symbol (lengths 31..64 for the bit-parallel matchers, 64..520 for "
+                "the others) planted at every offset, so that every pattern position is once the last symbol of a search window",
         "bounds": {"mc": "W=4, Sym={1,2}, |p|<=4, |t|<=6 (quick) / 8 (thorough), all five machines",
                    "impl": "|p|<=70, |t|<=300, bytes 0..255"},
         "assumptions": ["ndJsonDeserialize/TLC evaluate the TLA+ definition Occ faithfully",
